@@ -50,7 +50,7 @@ func TestVerif_C23(t *testing.T) {
 	defer admin.Close()
 	cfg := c23Cfg()
 	t.Run("pinned_lost_update_after_failed_autocommit_dml", func(t *testing.T) { txPinnedLostUpdate(t, srv, admin) })
-	vh.Check(t, "schedule", 350, 1500, func(rt *rapid.T) {
+	vh.Check(t, "schedule", 300, 700, func(rt *rapid.T) {
 		txRunCase(rt, srv, admin, cfg, rec)
 	})
 }
